@@ -166,7 +166,8 @@ func (v *inputFieldDefaultInjectionVisitor) processObjectOrListInput(fieldType i
 	if !found {
 		return defaultValue, false, nil
 	}
-	if node.Kind == ast.NodeKindScalarTypeDefinition {
+	if node.Kind != ast.NodeKindInputObjectTypeDefinition {
+		// scalars and enums have no fields to default (node.Ref is not an input object ref)
 		return defaultValue, false, nil
 	}
 	finalVal := defaultValue
